@@ -120,8 +120,9 @@ def finish(ctx, level="other", explanation="", extra_cov=None):
             hit_known.append((key, msg, loc))
         else:
             new.append((key, msg, loc))
-    os.makedirs(os.path.join(VERIF, "evidence"), exist_ok=True)
-    replay = os.path.join(VERIF, "evidence", "%s.violations.json" % prop)
+    evdir = os.environ.get("ZV_EVIDENCE_DIR") or os.path.join(VERIF, "evidence")
+    os.makedirs(evdir, exist_ok=True)
+    replay = os.path.join(evdir, "%s.violations.json" % prop)
     status = "ok"
     code = 0
     if ctx.lost:
@@ -173,7 +174,7 @@ def finish(ctx, level="other", explanation="", extra_cov=None):
         "violations": len(new),
         "status": status,
     }
-    with open(os.path.join(VERIF, "evidence", "%s.json" % prop), "w") as fh:
+    with open(os.path.join(evdir, "%s.json" % prop), "w") as fh:
         json.dump(ev, fh, indent=1)
     print("[%s] %s: %d obligations, %d discharged, %d known findings, %d new violations, %d anchors lost (%.1fs)"
           % (prop, status, ctx.obligations, ctx.discharged, len(hit_known), len(new), len(ctx.lost),
